@@ -67,6 +67,9 @@ Styles ==
 PlainStyle == [kwcase |-> "upper", gap |-> "space", comment |-> "none", eol |-> "lf", last |-> "eol", filler |-> "none"]
 \* every site varied alone, and all pairs of sites
 NearPlain(k) == {s \in Styles : Cardinality({x \in DOMAIN s : s[x] # PlainStyle[x]}) <= k}
+\* ... plus the combinations in which a comment has to end at a CR or CRLF line ending
+CommentAtEol == {s \in Styles : s.eol \in {"cr", "crlf"} /\ (s.comment # "none" \/ s.filler = "comment")
+                                 /\ s.kwcase = "upper" /\ s.gap = "space"}
 
 Junk == Tok("%%", {})
 Corrupt(ts, kind, i) ==
@@ -79,7 +82,7 @@ CONSTANT Mode, StyleDepth     \* "styles" | "corrupt" | "roundtrip"
 
 Init ==
   \/ /\ Mode = "styles"
-     /\ \E tx \in TxSet, s \in NearPlain(StyleDepth) : \E sp \in Spellings(tx) :
+     /\ \E tx \in TxSet, s \in NearPlain(StyleDepth) \cup CommentAtEol : \E sp \in Spellings(tx) :
           line = sp /\ base = tx /\ style = s /\ corr = <<>>
   \/ /\ Mode = "corrupt"
      /\ \E tx \in {t \in TxSet : t.ticker = "AAA" /\ t.f.qty \in {"10", ""} /\ t.f.amount \in {"150.00", "2"}},
